@@ -392,6 +392,7 @@ fn main() -> ExitCode {
         },
         Some("replay") if args.len() >= 3 => cmd_replay(&args[2]),
         Some("leg") if args.len() >= 4 => props::run_leg(&args[2], &args[3], &args[4..]),
+        Some("mini") => props::c19::mini(),
         _ => {
             eprintln!("usage: owlmc setup | check <ID> quick|thorough | run <ID> <tier> | replay <path>");
             2
